@@ -135,7 +135,12 @@ var c12Rules = []string{
 	"##.g1", "example.org##.s1", "example.org#@#.g1", "||rw.test^$dnsrewrite=1.2.3.4",
 }
 
-var c12Noise = []string{"", "  ", "\t", "! comment", "# comment", "#", "bad$unknown", "||x.test^$replace=/a/b/", "@@", "||y.test^$domain=", "$$script[x]"}
+var c12Noise = []string{"", "  ", "\t", "! comment", "# comment", "#", "bad$unknown", "||x.test^$replace=/a/b/", "@@", "||y.test^$domain=", "$$script[x]",
+	// longer than the 4 KiB read buffer, with a tail that would be a rule on its own
+	"! " + strings.Repeat("-", 4094) + "||x.test^",
+	"# " + strings.Repeat("-", 4094) + "0.0.0.0 y.test",
+	"||x.test^$unknown=" + strings.Repeat("a", 4078) + "||y.test^",
+}
 
 func c12Answers(text string) string {
 	st := stringStorage(text)
